@@ -25,6 +25,7 @@ type CaseSpec struct {
 	Weight   int    `json:"-"` // scheduling hint (heavier cases first)
 	WantModel bool  `json:"-"` // keep a model of the first path (translator validation)
 	MaxWallS  int   `json:"-"` // wall-clock budget for the whole case (seconds)
+	Sched     int   `json:"sched,omitempty"` // scheduling policy of the executor (0 lowest id first, 1 highest id first, 2 round robin)
 	SkipReach bool  `json:"-"` // do not spend a (possibly nonlinear) query on the vacuity guard
 }
 
@@ -37,6 +38,9 @@ func (c CaseSpec) ID() string {
 		ps = append([]string{c.Name}, ps...)
 	}
 	s := c.Harness + "(" + strings.Join(ps, ",") + ")"
+	if c.Sched != 0 {
+		s += fmt.Sprintf("@sched%d", c.Sched)
+	}
 	if c.Tag != "" {
 		s += "#" + c.Tag
 	}
@@ -145,6 +149,7 @@ func RunCase(p *Program, sol *Solver, spec CaseSpec) *CaseResult {
 		ex.NoMerge = spec.NoMerge
 		ex.deadline = deadline
 		ex.SkipReach = spec.SkipReach
+		ex.Sched = spec.Sched
 		ex.trackMem = spec.TrackMem
 		if spec.MaxSteps > 0 {
 			ex.MaxSteps = spec.MaxSteps
